@@ -34,12 +34,13 @@ def normalised(term, base_pred=None):
         lid, src, conds = term[3][0]
         el = ('elem', src, lid)
         c, a, b = term[2][1], term[2][2], term[2][3]
-        first_dims = ('attr', ('sub', src, const(0)), 'dims')
-        tr = ('call', ('attr', el, 'transpose'), (first_dims,), ())
-        if a == el and b == tr and T.contains(c, ('attr', el, 'dims')) and T.contains(c, first_dims):
-            return src
-        if b == el and a == tr:
-            return src
+        for first in (('sub', src, const(0)), ('item', src, 0)):          # L[0] of a list term / of a call result
+            first_dims = ('attr', first, 'dims')
+            tr = ('call', ('attr', el, 'transpose'), (first_dims,), ())
+            if a == el and b == tr and T.contains(c, ('attr', el, 'dims')) and T.contains(c, first_dims):
+                return src
+            if b == el and a == tr:
+                return src
     return None
 
 
